@@ -853,6 +853,29 @@ func writeKeyFacts(root, outPath string) {
 		for _, d := range f.Decls {
 			fd, ok := d.(*ast.FuncDecl)
 			if !ok {
+				// constant and variable blocks (store prefixes, module and account names) — one fingerprint per block
+				if gd, isGen := d.(*ast.GenDecl); isGen && (gd.Tok == token.CONST || gd.Tok == token.VAR) {
+					var b bytes.Buffer
+					printer.Fprint(&b, fset, gd)
+					sum := sha256.Sum256(b.Bytes())
+					first := "?"
+					if len(gd.Specs) > 0 {
+						if vs, ok := gd.Specs[0].(*ast.ValueSpec); ok && len(vs.Names) > 0 {
+							first = vs.Names[0].Name
+						}
+					}
+					row := fmt.Sprintf("  (%q, %q)", rel+":"+gd.Tok.String()+" "+first+"…", hex.EncodeToString(sum[:8]))
+					rows = append(rows, row)
+					mod := strings.Split(rel, "/")[1]
+					if perMod[mod] == nil {
+						mods = append(mods, mod)
+					}
+					perMod[mod] = append(perMod[mod], row)
+					fmt.Fprintf(&doc, "-- %s:%s block\n", rel, gd.Tok.String())
+					for _, l := range strings.Split(b.String(), "\n") {
+						fmt.Fprintf(&doc, "--   %s\n", l)
+					}
+				}
 				continue
 			}
 			var b bytes.Buffer
@@ -879,6 +902,36 @@ func writeKeyFacts(root, outPath string) {
 	o.WriteString("]\n\n")
 	for _, m := range mods {
 		fmt.Fprintf(&o, "def keyFns_%s : List (String × String) := [\n%s]\n\n", m, strings.Join(perMod[m], ",\n"))
+	}
+	// parameter tables: which store key is bound to which field, with which validator
+	pfiles, _ := filepath.Glob(filepath.Join(root, "x", "*", "types", "params.go"))
+	sort.Strings(pfiles)
+	for _, path := range pfiles {
+		f, err := parser.ParseFile(fset, path, nil, 0)
+		if err != nil {
+			fail("%v", err)
+		}
+		mod := strings.Split(strings.TrimPrefix(path, root+"/"), "/")[1]
+		var prow []string
+		ast.Inspect(f, func(n ast.Node) bool {
+			c, ok := n.(*ast.CallExpr)
+			if !ok {
+				return true
+			}
+			var fb bytes.Buffer
+			printer.Fprint(&fb, fset, c.Fun)
+			if strings.HasSuffix(fb.String(), "NewParamSetPair") && len(c.Args) == 3 {
+				var a [3]string
+				for i := range a {
+					var b bytes.Buffer
+					printer.Fprint(&b, fset, c.Args[i])
+					a[i] = b.String()
+				}
+				prow = append(prow, fmt.Sprintf("  (%q, %q, %q)", a[0], a[1], a[2]))
+			}
+			return true
+		})
+		fmt.Fprintf(&o, "def paramPairs_%s : List (String × String × String) := [\n%s]\n\n", mod, strings.Join(prow, ",\n"))
 	}
 	o.WriteString("/- the declarations the fingerprints were taken from:\n")
 	o.WriteString(strings.ReplaceAll(doc.String(), "-/", "- /"))
